@@ -391,6 +391,13 @@ func (v *objectBase) unmarshal(p []byte, eof bool, maxElems int) (err error) {
 		return oe.Errorf("maxElems=%v with eof", maxElems)
 	}
 
+	// The decoded properties replace whatever the container held before, so that a
+	// reused container ends up equal to a fresh one and Size() stays the number of
+	// bytes consumed (callers such as the RTMP packets advance by it).
+	v.lock.Lock()
+	v.properties = nil
+	v.lock.Unlock()
+
 	readOne := func() (amf0UTF8, Amf0, error) {
 		var u amf0UTF8
 		if err = u.UnmarshalBinary(p); err != nil {
@@ -637,10 +644,11 @@ func (v *StrictArray) UnmarshalBinary(data []byte) (err error) {
 	v.count = binary.BigEndian.Uint32(p[1:])
 	p = p[5:]
 
-	if int(v.count) <= 0 {
+	if int(v.count) < 0 {
 		return
 	}
 
+	// An empty array goes through unmarshal as well: it clears what a reused array held.
 	if err = v.unmarshal(p, false, int(v.count)); err != nil {
 		return oe.WithMessage(err, "unmarshal")
 	}
